@@ -229,6 +229,16 @@ def check_text_union(prog, rep):
               status="undecided" if (a1 is None or a2 is None) else "refuted")
     ro = strip_refs(Origins(bb).return_origin())
     ok = bool(find(ro, ("call", "*Rectangle::with_corners", "_", ("?a", "?b"))))
+    if not ok:
+        # the call may sit in a closure handed to map_or_else / map: look at the closures of bounding_box as well
+        fam = [bb]
+        i = 0
+        while i < len(fam):
+            fam.extend(prog.closures_of.get(fam[i].id, []))
+            i += 1
+        for g in fam[1:]:
+            r = strip_refs(Origins(g).return_origin())
+            ok = ok or bool(find(r, ("call", "*Rectangle::with_corners", "_", ("?a", "?b"))))
     rep.check(ok, "R02.4", "with_corners", "Text::bounding_box must return with_corners(min, max)", at=bb.span, fn=bb.path)
 
 
